@@ -176,8 +176,8 @@ Definition spec_raw (s : st) (o : op) : st * out :=
         else
         let d := n_data (get (heap s) (h_ino hd)) in
         if (h_off hd <? 0)%Z then (s, OErr EOther)
-        else if Nat.eqb n 0 then (s, OBytes [])                              (* read(fd, buf, 0) = 0 *)
-        else if (h_off hd >=? blen d)%Z then (s, OErr EEOF)
+        (* at or after the end: EOF, except that read(fd, buf, 0) is 0 bytes *)
+        else if negb (Nat.eqb n 0) && (h_off hd >=? blen d)%Z then (s, OErr EEOF)
         else let bs := firstn n (skipn (Z.to_nat (h_off hd)) d) in
              (mkSt (heap s) (upd_h (handles s) i (set_off (h_off hd + blen bs)%Z)), OBytes bs))
   | ReadAt i n off =>
@@ -187,8 +187,7 @@ Definition spec_raw (s : st) (o : op) : st * out :=
         else
         let d := n_data (get (heap s) (h_ino hd)) in
         if (off <? 0)%Z then (s, OErr EOther)                                  (* EINVAL *)
-        else if Nat.eqb n 0 then (s, OBytes [])
-        else if (off >=? blen d)%Z then (s, OErr EEOF)
+        else if negb (Nat.eqb n 0) && (off >=? blen d)%Z then (s, OErr EEOF)
         else (s, OBytes (firstn n (skipn (Z.to_nat off) d))))
   | Write i p =>
       with_handle s i (fun hd =>
@@ -433,7 +432,8 @@ Definition corners (b : backend) (s : st) (o : op) : list (bool * string) :=
         (eres_nat_eqb (s_lnode h p) (s_node h p), "lstat-follows-symlink") ] ++ node_corner b h p
   | SetXattr p _ _ | GetXattr p _ | RemoveXattr p _ | ListXattrs p =>
       [ (clean_path p, t_path);
-        (negb (match s_node h p with inr EOther => true | _ => false end), "xattr-lookup-error-always-notexist") ]
+        (match s_node h p with inr ENotExist => true | inr _ => false | inl _ => true end,
+         "xattr-lookup-error-always-notexist") ]
       ++ node_corner b h p
   | Symlink _ p | Mknod p _ _ => leaf_corner b h p true
   | Readlink p | Readnod p => leaf_corner b h p false
@@ -445,7 +445,7 @@ Definition corners (b : backend) (s : st) (o : op) : list (bool * string) :=
   | Link old new =>
       leaf_corner b h new true ++
       [ (clean_path old, t_path);
-        (negb (match get_node b h old, s_node h old with inr _, inr EOther => true | _, _ => false end),
+        (match get_node b h old, s_node h old with inr _, inr ENotExist => true | inr _, inr _ => false | _, _ => true end,
          "link-oldname-error-always-notexist");
         (negb (match get_node b h old, s_node h old with inr ENotExist, inr EOther => true | _, _ => false end), t_prefix);
         (eres_nat_eqb (get_node b h old) (s_node h old), t_link);
